@@ -235,25 +235,26 @@ func (group *Group) Dispose() {
 		group.psPubSession.Dispose()
 	}
 
+	// 注意，容器置空而不是置nil：Dispose之后（比如ServerManager.Dispose之后）仍可能有已经建连的session的加入回调到来
 	for session := range group.rtmpSubSessionSet {
 		session.Dispose()
 	}
-	group.rtmpSubSessionSet = nil
+	group.rtmpSubSessionSet = make(map[*rtmp.ServerSession]struct{})
 
 	for session := range group.rtspSubSessionSet {
 		session.Dispose()
 	}
-	group.rtspSubSessionSet = nil
+	group.rtspSubSessionSet = make(map[*rtsp.SubSession]struct{})
 
 	for session := range group.httpflvSubSessionSet {
 		session.Dispose()
 	}
-	group.httpflvSubSessionSet = nil
+	group.httpflvSubSessionSet = make(map[*httpflv.SubSession]struct{})
 
 	for session := range group.httptsSubSessionSet {
 		session.Dispose()
 	}
-	group.httptsSubSessionSet = nil
+	group.httptsSubSessionSet = make(map[*httpts.SubSession]struct{})
 
 	group.delIn()
 }
